@@ -1,4 +1,5 @@
 import Secp.Proofs.LimbGroup
+import Secp.Proofs.BitsSpec
 /-!
 # C01 — scalar multiplication equals k-fold addition for every scalar and point
 
@@ -32,6 +33,18 @@ theorem C01 (P : Pt L4) (hP : Valid P) (s : L4) (k : Nat)
     Valid (multiply F P (some s)) ∧ G (multiply F P (some s)) = k • G P := by
   rw [multiply_some]
   exact multiplyCore_correct limbLawful curveOK_Fp limb_curveConsts P hP _ _ k hone hbits
+
+/-- **C01, full statement**: for every valid element `P` in any representation and every canonical scalar `s`,
+`Multiply` sets `P` to `[k]P` where `k = (sVal s).val ∈ [0, n)` is the canonical value of `s` — including `k = 0`,
+`k = 1`, `k = n-1` and every `k` with bit 255 set — and the result is a valid element. -/
+theorem C01_full (P : Pt L4) (hP : Valid P) (s : L4) (hs : sOk s) :
+    Valid (multiply F P (some s)) ∧ G (multiply F P (some s)) = (sVal s).val • G P := by
+  apply C01 P hP s (sVal s).val
+  · intro h
+    have := (sc_isOne_iff s hs).mp h
+    rw [this]
+    exact ZMod.val_one Spec.N
+  · exact (bits_spec s hs).2.2
 
 /-- a nil scalar yields the identity -/
 theorem C01_nil (P : Pt L4) : G (multiply F P none) = 0 := by
